@@ -36,7 +36,57 @@ SOURCES = {
     "i5": "module m1\ncontains\nsubroutine s1\ninteger :: cos\nx = = 2\nend subroutine s1\nend module m1\n",
     "i6": "program p2\nblock\ninteger :: abs\n@@@\nend block\nend program p2\n",
 }
-SYMS = ["c3", "c8"] + sorted(SOURCES)
+# a program that exercises most statement families under either standard (class-level caches, memo tables)
+RICH = """module rich_m
+use other_m, only: a => b
+implicit none
+integer, parameter :: n = 5
+real(kind = 8), dimension(10), save :: arr
+character(len = 10) :: str_ = 'ab''c'
+type tt
+integer :: v
+real, pointer :: w(:) => null()
+contains
+procedure :: m
+generic :: g => m
+end type tt
+interface gen
+module procedure p1
+end interface gen
+contains
+subroutine p1(x, y)
+real, intent(in) :: x
+real, intent(inout), optional :: y
+integer :: i, ios, lun
+10 format(i2, 2x, f8.3, 'te''xt', /, 1p, e12.4)
+open(unit = 10, file = 'f.txt', status = 'old', iostat = ios)
+allocate(arr2(10), stat = ios)
+nm: do i = 1, 10
+if (x > 1.0e-3) then
+y = x ** 2 - (-y) + max(x, y)
+else if (x < 0) then
+cycle nm
+else
+stop 1
+end if
+end do nm
+do 20 i = 1, 3
+write(6, 10) x
+20 continue
+select case (i)
+case (1)
+go to 20
+case default
+where (arr > 0) arr = 1
+end select
+forall (i = 1:3) arr(i) = 0
+close(10)
+deallocate(arr2)
+end subroutine p1
+end module rich_m
+"""
+SOURCES["rich"] = RICH
+SYMS = ["c3", "c8"] + sorted(k for k in SOURCES if k != "rich")
 PROBES = [("f2003", "v4"), ("f2008", "v2"), ("f2008", "v1"), ("f2003", "v5")]
 
 
@@ -49,6 +99,14 @@ def exhaustive(tier, flags):
                 for s, x in PROBES:
                     steps += ["c3" if s == "f2003" else "c8", x]
                 yield {"steps": steps, "sources": {}, "meta": {"exhaustive": True}}
+    # F2008-only constructs must still be rejected by a 2003 parser created after 2008 parses of related
+    # 2003 statements (and vice versa): class-level state shared between the two registries
+    from vf.props import c17
+    for name, src in c17.CATALOGUE:
+        key = "cat_" + name
+        for steps in (["c8", "rich", "c3", key], ["c8", key, "c3", key], ["c3", "rich", "c8", "rich", "c3", key],
+                      ["c3", key, "c8", key]):
+            yield {"steps": steps, "sources": {key: src}, "meta": {"exhaustive": True, "catalogue": name}}
 
 
 def build(rnd, tier, flags):
@@ -68,6 +126,11 @@ def build(rnd, tier, flags):
     for _ in range(r.n(3, 12)):
         steps.append(r.pick(syms) if not r.chance(20) else r.pick(["c3", "c8"]))
     steps += [r.pick(["c3", "c8"]), r.pick(syms)]
+    if r.chance(50):
+        from vf.props import c17
+        name, src = r.pick(c17.CATALOGUE)
+        extra["cat_" + name] = src
+        steps += ["rich" if r.chance(50) else r.pick(syms), r.pick(["c3", "c8"]), "cat_" + name]
     return {"steps": steps, "sources": extra, "meta": {}}
 
 
@@ -146,13 +209,17 @@ def failing_unit(src, errtext):
     m = re.match(r"at line (\d+)", errtext or "")
     errline = int(m.group(1)) if m else 10 ** 9
     stack = []
+    closed_main0 = False
     for i, line in enumerate(src.split("\n"), 1):
         if i > errline:
             break
         low = line.strip().lower()
         if re.match(r"end\s*(subroutine|function|module|program|submodule|block\s*data)?\b(\s+\w+)?\s*$", low):
-            if i < errline and stack:
-                stack.pop()
+            if i < errline:
+                if stack:
+                    stack.pop()
+                else:
+                    closed_main0 = True      # the END of a main program without PROGRAM statement
             continue
         if low.startswith("end") or low.startswith("module procedure"):
             continue
@@ -160,7 +227,9 @@ def failing_unit(src, errtext):
         if h and "=" not in line.split(h.group(1))[0]:
             if i < errline or True:
                 stack.append(h.group(2).lower())
-    return stack[0] if stack else "fparser2:main_program"
+    if stack:
+        return stack[0]
+    return None if closed_main0 else "fparser2:main_program"
 
 
 _fresh = {}
